@@ -324,8 +324,24 @@ func c17CheckTrace(cfg, logPath, cwd string) (viol [][2]string, calls int) {
 	sc := bufio.NewScanner(f)
 	sc.Buffer(make([]byte, 1<<20), 1<<20)
 	quoted := regexp.MustCompile(`"((?:[^"\\]|\\.)*)"`)
+	// a call interrupted by another thread's call is written in two parts ("<unfinished ...>" / "<... name resumed>"):
+	// they are joined again per pid before the line is looked at
+	pending := map[string]string{}
+	resumed := regexp.MustCompile(`^(\d+)\s+<\.\.\. \w+ resumed>(.*)$`)
 	for sc.Scan() {
 		line := sc.Text()
+		if i := strings.Index(line, " <unfinished ...>"); i >= 0 {
+			if f := strings.Fields(line); len(f) > 0 {
+				pending[f[0]] = line[:i]
+			}
+			continue
+		}
+		if m := resumed.FindStringSubmatch(line); m != nil {
+			if head, ok := pending[m[1]]; ok {
+				delete(pending, m[1])
+				line = head + m[2]
+			}
+		}
 		if strings.Contains(line, "verif-c17-start-marker") {
 			started = true
 			continue
